@@ -303,6 +303,28 @@ def allof_unions_family(rng):
     return {"cls": "AllOf", "kw": {}, "elements": members}, vals
 
 
+def tuple_defaults_family(rng):
+    """tuple items where a position with a default follows positions without one; values shorter than the tuple"""
+    leaf = lambda cls, **kw: {"cls": cls, "kw": {k: core.enc_val(v) for k, v in kw.items()}}
+    items = [leaf("String"), leaf("Integer"), leaf("String", default="kg")]
+    if rng.random() < 0.5:
+        items = [leaf("Integer", default=0), leaf("String"), leaf("Number", default=1.5), leaf("Null")]
+    kw = {"itemsKind": "tuple"}
+    if rng.random() < 0.4:
+        kw["addItemsB"] = False
+    return {"cls": rng.choice(["Array", "Element"]), "kw": kw, "items": items}, [["flour"], ["flour", 2], [], ["flour", 2, "g"], [1], [1, "x"], [1, "x", 2.5, None]]
+
+
+def member_default_family(rng):
+    """a composition without a default of its own whose member declares one: the member's default is never applied"""
+    size = {"cls": "Object", "name": "Size", "kw": {"hasProps": True}, "props": [[{"name": "w", "source": "w"}, {"cls": "Integer", "kw": {}}]]}
+    first = rng.choice([{"cls": "Integer", "kw": {}}, size, {"cls": "String", "kw": {}}])
+    member = {"cls": "Element", "kw": {"default": core.enc_val(rng.choice([1, "x", {"w": 1}, None]))}}
+    mode = rng.choice(["AllOf", "AllOf", "AnyOf", "OneOf"])
+    members = [first, member] if rng.random() < 0.7 else [member, first]
+    return {"cls": mode, "kw": {}, "elements": members}, [1, "s", {"w": 2}, None, 2.5]
+
+
 def class_default_family(rng):
     """a property whose element is a model class with a class-level default (the empty object included)"""
     d = rng.choice([{}, {}, {"a": 1}, {"b": "x"}])
@@ -324,7 +346,7 @@ def run(ctx, scale=1.0):
         dg, vg = dsl.DumpGen(rng), ValueGen(rng)
         n = int(N_TREES[ctx["tier"]] * scale)
         for i in range(n):
-            fam = ["random", "random", "class-default", "twin-tuple", "composition", "random", "subclass", "allof", "random", "allof-unions"][i % 10]
+            fam = ["random", "random", "class-default", "twin-tuple", "composition", "random", "subclass", "allof", "random", "allof-unions", "tuple-defaults", "member-default"][i % 12]
             stats["family-" + fam] = stats.get("family-" + fam, 0) + 1
             if fam == "subclass":
                 check_subclass(drv, rng, dg, out, stats, i)
@@ -342,6 +364,10 @@ def run(ctx, scale=1.0):
                     sub, vals = class_default_family(rng)
                 elif fam == "allof-unions":
                     sub, vals = allof_unions_family(rng)
+                elif fam == "tuple-defaults":
+                    sub, vals = tuple_defaults_family(rng)
+                elif fam == "member-default":
+                    sub, vals = member_default_family(rng)
                 else:
                     sub = dg.dump(3)
                     try:
